@@ -15,7 +15,7 @@ import (
 func init() {
 	register("C10", Meta{
 		Explanation: "Structural necessary conditions of well-formed batches: (non-empty) in the batch-build function the store of the new BatchTx and the nonce / sequence bumps before it are cut off from the entry by 'len(selected) > 0'; (cap) the selection callback stops at len(selected) == max, the iterate helper stops when the callback says so, and every caller passes a constant <= 100; (own-token) the per-token pool iteration prefix SendToExternalKey|chain|tokenId ends in a variable-length string that is followed by fee(32)|id(8) in the full key, so the callback invocation must be guarded by equality of the decoded entry's token id with the requested id (a decimal Minter coin id can be a prefix of another); (fee-order) the fee component of the pool key is fixed-width big-endian (FillBytes on 32 bytes) directly after the token id and the per-token iteration is a reverse iterator; (counters) LastOutgoingBatchNonceKey and OutgoingSequence each have a single +1 increment function, the batch's BatchNonce is the increment's result and every OutgoingTxKey write is preceded by SetSequence(increment()).",
-		NotDecided: []string{"'highest-fee first' as an ordering fact beyond the key schema and iterator direction", "gap-freeness over histories beyond single-increment-per-store (a bump without a store is excluded by non-empty)"},
+		NotDecided:  []string{"'highest-fee first' as an ordering fact beyond the key schema and iterator direction", "gap-freeness over histories beyond single-increment-per-store (a bump without a store is excluded by non-empty)"},
 		Assumptions: commonAssumptions,
 	}, checkC10)
 }
